@@ -793,3 +793,17 @@ Proof.
   destruct p as [vs closed]. unfold sliced_by_plane, slice_any. cbn [pclosed pv].
   destruct (closed && (1 <? length vs)%nat); [apply closed_raise|apply core_raise].
 Qed.
+
+(* the returned polyline is open, and its rows are those of sliced_by_plane; exceptions are passed on unchanged *)
+Theorem result_is_open pl p :
+  (forall r, sliced_polyline ROps pl p = Ok r -> s_closed r = false /\ sliced_by_plane ROps pl p = Ok (s_rows r)) /\
+  (forall rows, sliced_by_plane ROps pl p = Ok rows -> sliced_polyline ROps pl p = Ok (MkSliced rows false)) /\
+  (forall e, sliced_polyline ROps pl p = Raise e <-> sliced_by_plane ROps pl p = Raise e).
+Proof.
+  unfold sliced_polyline. destruct (sliced_by_plane ROps pl p) as [rows|e0]; cbn [rbind].
+  - split; [|split].
+    + intros r H. injection H as <-. auto.
+    + intros rows' H. injection H as <-. reflexivity.
+    + intros e. split; discriminate.
+  - split; [|split]; try discriminate. intros e. split; intros H; injection H as <-; reflexivity.
+Qed.
